@@ -1320,8 +1320,9 @@ impl World {
 					self.pays[pi].ev.path_failed.push((step, short_channel_id, payment_failed_permanently));
 				}
 			},
-			Event::PaymentForwarded { total_fee_earned_msat, .. } => {
+			Event::PaymentForwarded { total_fee_earned_msat, outbound_amount_forwarded_msat, claim_from_onchain_tx, .. } => {
 				self.nodes[n].forward_fees_told_msat += total_fee_earned_msat.unwrap_or(0);
+				self.oracle_on_forwarded(n, total_fee_earned_msat, outbound_amount_forwarded_msat, claim_from_onchain_tx);
 			},
 			Event::ChannelClosed { channel_id, reason, .. } => {
 				self.on_channel_closed(n, channel_id, format!("{:?}", reason));
